@@ -39,7 +39,7 @@ CLAIMED = {
              "held mutex, is registered in the waiter field the waker tests, and is followed by a re-evaluation of the admission "
              "predicate before the lock is granted; readers are admitted only with the writer field known zero, writers only with the "
              "whole counter zero; field masks/shifts agree across all functions; unlock wakes what becomes grantable (read_cv only by "
-             "broadcast); the lock object is zero-filled at allocation (its counters are never stored by the constructor); the native rwlock is destroyed before its memory is released. " + DECIDES % "C02",
+             "broadcast); a waiter registers before and deregisters after its wait loop, never inside it; the lock object is zero-filled at allocation (its counters are never stored by the constructor); the native rwlock is destroyed before its memory is released. " + DECIDES % "C02",
         technique="wrapper-wiring check; term-valued path-sensitive dataflow with mutex typestate, epoch reset at condition waits, packed-field classification and wake-obligation check at returns"),
     "C03": dict(
         text="Rules C03.1-C03.3: wait/signal/broadcast call pthread_cond_wait/signal/broadcast on &cond->hdl, TRUE iff 0, no cross-wiring "
@@ -81,7 +81,7 @@ CLAIMED = {
              "ownership, close always / unlink only when owner, acquire/release wiring with exact result mapping, key identity (the key derivation in pipc.c refers to no static or global variable, so concurrent opens of different names cannot meet). C06.5 on psemaphore-sysv.c (not selectable in the Linux build, "
              "analysed with the POSIX unit's flags): semop -1 / +1 on semaphore 0 from constant sembuf objects, blocking, with the same undo flag "
              "in both directions, every semop retried on EINTR; exclusive semget first, ownership only on its success, SETVAL exactly when owned or "
-             "in CREATE mode, IPC_RMID only by the owner, id tests separate exactly -1 from the valid ids. The constructor records mode and initial value before the create path runs and sizes the name buffer for name + suffix + NUL." + COMMON + DECIDES % "C06",
+             "in CREATE mode, IPC_RMID only by the owner, id tests separate exactly -1 from the valid ids, the key file is created exclusively. The constructor records mode and initial value before the create path runs and sizes the name buffer for name + suffix + NUL." + COMMON + DECIDES % "C06",
         technique="path-sensitive typestate over the IPC name (unknown/exists/absent) with guard facts on mode and errno; wiring and who-writes-field checks"),
     "C07": dict(
         text="Rules C07.1-C07.6. C07.1-C07.5 on pshm-posix.c: mmap parameters (MAP_SHARED, offset 0, shm_open descriptor, size field, protection by "
@@ -98,12 +98,12 @@ CLAIMED = {
              "untouched, read takes min(used, len); for each of the three orderings of the positions used + free + 1 == size with no "
              "negative subtraction (linear normaliser, no solver); contiguous copy only under start+n<=size, wrapped copy lengths/offsets "
              "identities, copied total == position advance; clear zero-fills from offset 0 over the whole reported segment (at least the "
-             "header holding both positions); the ring modulus derives only from the size the shm layer reports; opening, freeing or taking ownership of a handle never touches the segment's memory (C08.7); "
+             "header holding both positions); the ring modulus derives only from the size the shm layer reports and is at most that size minus the 16-byte header; opening, freeing or taking ownership of a handle never touches the segment's memory (C08.7); "
              "no conversion narrows a position, size or length except into the documented pint result (C08.8); clear performs its fill on every path with a mapped segment and the lock granted; error-reporting paths return failure. One known "
              "finding (reported size of an existing segment depends on the opener's argument). " + DECIDES % "C08",
         technique="term-valued path-sensitive dataflow with lock typestate; linear-form normalisation of the space/copy identities over the finite set of position orderings"),
     "C05": dict(
-        text="Rules C05.1-C05.5 on puthread.c / puthread-posix.c (C05.3 includes: the native detach state handed to pthread_attr_setdetachstate agrees with the joinable flag on every path - for 1, 0 and a true value other than 1 -, and pthread_detach is never called afterwards; "
+        text="Rules C05.1-C05.5 on puthread.c / puthread-posix.c (C05.3 includes: the native detach state handed to pthread_attr_setdetachstate agrees with the joinable flag on every path - for 1, 0 and a true value other than 1 -, and pthread_detach is never called afterwards; releasing a key reference never reaches pthread_key_delete; a handle wiped from the library slot by hand is unref'ed by hand; "
              "C05.2 includes: p_uthread_free_internal is reached from p_uthread_unref only, the creating function never releases the handle of a thread it has started, and the native constructor releases it only "
              "after the last pthread_create on the path failed; C05.1 includes: p_uthread_init creates the creation spinlock and the TLS slot whenever they do not exist): native create and all initialising stores under the creation spinlock, "
              "the new thread reads creator-initialised fields only after passing it; created handles start with 2 references, adopted "
@@ -161,7 +161,7 @@ CLAIMED = {
              "zero-filled slot count; C15.6 (chain shape analysis, symbolic table, chains of every length, unique keys): insert / lookup / remove "
              "subscript the table only with the key's hash modulo table->size, insert overwrites a present key in place and otherwise links exactly "
              "one new node after comparing every node, lookup returns the stored value or (ppointer)-1 only after comparing every node (a NULL key and an all-ones value are ordinary inputs, explored both ways; keys are never compared through a narrower integer), remove unlinks and releases exactly the key's "
-             "node; listing functions walk every chain to its end; no use after release; C15.5 (shape analysis with summarised list segments and symbolic "
+             "node; listing functions walk every chain to its end; lookup_by_value is decided by the caller's predicate alone when one is given; no use after release; C15.5 (shape analysis with summarised list segments and symbolic "
              "sequence contents, analysed to a fixpoint, lists of every length): p_list_append / prepend / remove / reverse / last / foreach / free return or "
              "leave exactly the sequence the corresponding sequence operation gives, never follow a released item's link, never dereference NULL; the length "
              "counter is 1 + one per link followed. " + DECIDES % "C15",
